@@ -206,9 +206,10 @@ def delSheet (s : State) (i : Nat) : State :=
   | some sh =>
     let n := s.sheets.length
     let s1 := push s (.deleteSheet i sh)
+    -- after fix F04a–h the only sheet cannot be deleted and the failing call records nothing
     if n > 1 then
       { s1 with selected := afterDelete s.selected i n, sheets := removeAt s.sheets i }
-    else s1
+    else s
 
 /-- the scan of common.rs::hide_sheet for the next visible sheet: `(i + k) % n` for `k = 1 .. n-1` -/
 def nextVisible (sheets : List Sheet) (i n : Nat) : Nat → Nat → Option Nat
